@@ -34,8 +34,19 @@ def _setup_path():
     os.environ['PB_BSS_VERIF'] = '1'
 
 
+def _fresh_repo_modules():
+    """history-free start: drop the pb_bss modules (and the harness modules that hold references to them) so that
+    every case imports /repo's current source into fresh module state (class-/module-level caches included)"""
+    from symnp import stubs
+    stubs.uninstall_all()
+    for name in list(sys.modules):
+        if name == 'pb_bss' or name.startswith('pb_bss.') or name.startswith('harness.'):
+            del sys.modules[name]
+
+
 def _load(prop):
     _setup_path()
+    _fresh_repo_modules()
     return importlib.import_module('harness.' + prop.lower())
 
 
@@ -359,7 +370,10 @@ def report(prop, tier, seed, cases, results, replays, t_start, verbose):
             if cr.get('error'):
                 cosim_bad.append((c.name, cr['error']))
             elif cr['failed'] and not cr['outside']:
-                cosim_bad.append((c.name, cr['failed'][:2]))
+                rest = [x for x in cr['failed'] if not any(fnmatch.fnmatch('%s:%s' % (c.name, _base(x[0])), k['key']) for k in known)]
+                if rest:
+                    cosim_bad.append((c.name, rest[:2]))
+    rep_keys0 = set(k for k, *_ in violations) | set(k for k, *_ in known_hits)
     # solver inconclusive on an obligation family, but the concrete co-simulation of the same case (real code, plain
     # NumPy, random inputs inside the preconditions) fails exactly that family: report the concrete witness
     aliases = getattr(sys.modules.get('harness.' + prop.lower()), 'ALIASES', {})
@@ -367,8 +381,8 @@ def report(prop, tier, seed, cases, results, replays, t_start, verbose):
         r = results[c.name]
         und = set()
         for o in r['obls']:
-            if o['verdict'] not in ('unsat', 'sat'):
-                b = _base(o['label'])
+            b = _base(o['label'])
+            if o['verdict'] not in ('unsat', 'sat') or (o['verdict'] == 'sat' and ('%s:%s' % (c.name, b)) not in rep_keys0):
                 und.add(b)
                 und.update(aliases.get(b, ()))
         anyfail = bool(r.get('error'))        # the symbolic run did not finish (engine error / budget): any concrete failure decides
